@@ -534,7 +534,10 @@ let run_history (l : n) (cap : n) (mode : string) (k : n) (line : string) : stri
                             Buffer.add_string b
                               (match nd with
                                | NInt (neg, wd, v) -> Printf.sprintf "int:%d:%s:%s" (if neg then 1 else 0) (iw wd) (string_of_n v)
-                               | NFloat (wd, bits) -> Printf.sprintf "float:%s:%s" (fw wd) (hex_of_n bits)
+                               | NFloat (wd, bits) ->
+                                   (* the harness prints the value a getter returns with every NaN as the canonical quiet NaN
+                                      (a float passed by value does not reliably keep a signalling payload) *)
+                                   Printf.sprintf "float:%s:%s" (fw wd) (hex_of_n (match wd with F64 -> canon64 bits | _ -> canon32 bits))
                                | NCtrl v -> Printf.sprintf "ctrl:%s" (string_of_n v)
                                | NStr (text, _, bytes) ->
                                    Printf.sprintf "str:%d:%d:%s" (if text then 1 else 0) (List.length bytes)
